@@ -37,6 +37,7 @@ def integrator_contracts(R, reg, src, prop):
     for implicit, adaptive in ((False, False), (False, True), (True, False), (True, True)):
         R.under_contract(intcall.check_rk_call(reg, src, prop, implicit, adaptive))
     R.under_contract(intcall.check_symplectic_call(reg, src, prop))
+    R.under_contract(intcall.check_richardson_call(reg, src, prop))
 
 
 def run(tier):
@@ -44,7 +45,7 @@ def run(tier):
     R.assume("A1", "A2", "A3", "A7")
     R.assume(intcall.AXIOM_TEXT)
     R.assume("states are one real per recorded step (element-wise view); 'finite and of the initial state's precision' is a floating-point/dtype statement: bounded native clause only")
-    R.assume("Richardson-extrapolated wrappers: their __call__ is covered by the same I1/I2 contract only through the bounded native family (recursive retry not verified)")
+    R.assume("Richardson-extrapolated wrappers: their __call__ satisfies the same I1/I2 contract (proved in C05's run: props/intcall.check_richardson_call, fixed-step basis)")
     R.assume("termination of the loop is not proved (A7); an infinite target (tf = inf) is outside this contract")
     R.trust("z3 (arrays, quantifiers, lambda arrays, linear real arithmetic)", "pyvc executor", "contracts substituted for callees are proved in this same run (helpers, integrator __call__) or are user callables (callbacks: arbitrary)")
     src = source.load_all()
